@@ -9,7 +9,7 @@ PROPS["C19"] = dict(
          "iteration, semaphore acknowledged and echoed; per case the APBP handler is entered with or without a context switch and a timer on a second core line fires with period 0/6/9/50/333/1000) while the host thread runs 'rounds' of stop-and-wait sends (value = "
          "increasing sequence number per channel) and bursts of all ten mailbox/semaphore API calls; host callbacks re-enter "
          "the API; delays at the H3 hand-over points are drawn from the case seed. ThreadSanitizer (tsan job) reports are "
-         "deduplicated by kind and first teakra frames. distinct_nontrivial = distinct interleaving signatures (hash of the "
+         "deduplicated by kind and first teakra frames. Half of the two-line guests dispatch on the ICU request register (ack first, then service); half of the cases use a mask/service-one/unmask semaphore callback (nested notifications). distinct_nontrivial = distinct interleaving signatures (hash of the "
          "time-ordered send/reply/callback event kinds of a case)",
     floors={Q: {"replies_checked": 100000, "host_callbacks_on_dsp_thread": 100000, "yield_site_0": 10000, "yield_site_2": 50000, "stop_and_wait_ch1": 10000},
             T: {"replies_checked": 5000000, "host_callbacks_on_dsp_thread": 5000000, "yield_site_0": 500000, "yield_site_2": 2000000, "stop_and_wait_ch1": 500000}},
